@@ -3,6 +3,7 @@ pub mod c06;
 pub mod c07;
 pub mod c12;
 pub mod c13;
+pub mod c14;
 pub mod c15;
 pub mod c16;
 pub mod c17;
@@ -16,6 +17,7 @@ pub fn engine(id: &str) -> Option<&'static dyn Engine> {
         "C07" => Some(&c07::C07),
         "C12" => Some(&c12::C12),
         "C13" => Some(&c13::C13),
+        "C14" => Some(&c14::C14),
         "C15" => Some(&c15::C15),
         "C16" => Some(&c16::C16),
         "C17" => Some(&c17::C17),
@@ -23,4 +25,4 @@ pub fn engine(id: &str) -> Option<&'static dyn Engine> {
     }
 }
 
-pub const ALL: &[&str] = &["C05", "C06", "C07", "C12", "C13", "C15", "C16", "C17"];
+pub const ALL: &[&str] = &["C05", "C06", "C07", "C12", "C13", "C14", "C15", "C16", "C17"];
